@@ -338,6 +338,8 @@ pub fn text_runs(dump: &Dump) -> Vec<(Option<String>, usize, usize)> {
     for t in &dump.toks {
         let part = match t {
             Tok::Text { text, start } => Some((ref_decode(text, false), *start, start + text.len())),
+            // an empty CDATA section contributes no character data: it is not a part of the run
+            Tok::Cdata { text, .. } if text.is_empty() => continue,
             Tok::Cdata { text, start } => Some((Some(normalise_line_ends(text)), *start, start + text.len())),
             _ => None,
         };
